@@ -16,7 +16,8 @@
 (*   [k |-> "slice", e, l, r]   e[l:r]        [k |-> "sshort", e, n]  e`n  *)
 (*   [k |-> "block", es]  [k |-> "assign", name, e]  [k |-> "call", f, args]*)
 (*                                                                         *)
-(* Values: [t, v, s, cps, enc] with t in int bool str void unknown failed  *)
+(* Values: [t, v, s, cps, enc] with t in int wint bool str void unknown     *)
+(* failed                                                                  *)
 (* err big; v the number (or 1/0 for booleans), s the size in bits (-1 =   *)
 (* none), cps/enc for strings.  "err" is a hard error (the assembly        *)
 (* fails), "failed" a failed assert (a candidate that does not apply),     *)
@@ -33,6 +34,10 @@ VoidV == Val("void", 0, -1)
 UnknownV == Val("unknown", 0, -1)
 FailedV == Val("failed", 0, -1)
 ErrV == Val("err", 0, -1)
+\* a sized non-negative integer too wide for the native path, kept as its bits
+\* (most significant first): supports concatenation, slicing, le(), sizeof and
+\* emission; any arithmetic on it is "big" (unjudged)
+WIntV(bits) == [t |-> "wint", v |-> 0, s |-> Len(bits), cps |-> bits, enc |-> ""]
 BigV == Val("big", 0, -1)
 
 Propagates(x) == x.t \in {"unknown", "failed", "err", "big"}
@@ -163,7 +168,17 @@ BytesBits(bs) == IF Len(bs) = 0 THEN <<>> ELSE BitsOf(bs[1], 8) \o BytesBits(Tai
 \* a string used where an integer is expected: its bytes, big-endian, sized
 StrAsInt(sv) ==
     LET bs == StrBytes(sv.cps, sv.enc) IN
-    IF Len(bs) > 3 THEN BigV ELSE IntV(BytesVal(bs), 8 * Len(bs))
+    IF Len(bs) > 3 THEN WIntV(BytesBits(bs)) ELSE IntV(BytesVal(bs), 8 * Len(bs))
+
+\* the bits of a sized integer (native or wide), most significant first
+ToBits(x) == IF x.t = "wint" THEN x.cps ELSE BitsOf(x.v, x.s)
+\* bit i (0 = least significant) of a wide integer (zero beyond its size)
+WBit(x, i) == IF i >= x.s THEN 0 ELSE x.cps[x.s - i]
+\* a bit sequence as a value: native when it fits
+FromBits(bits) == IF Len(bits) <= 30 THEN IntV(ValOf(bits), Len(bits)) ELSE WIntV(bits)
+
+RECURSIVE RevBytes(_)
+RevBytes(bits) == IF Len(bits) = 0 THEN <<>> ELSE RevBytes(SubSeq(bits, 9, Len(bits))) \o SubSeq(bits, 1, 8)
 
 AsInt(x) == IF x.t = "str" THEN StrAsInt(x) ELSE x
 
@@ -171,7 +186,8 @@ AsInt(x) == IF x.t = "str" THEN StrAsInt(x) ELSE x
 (* Operators (eval.rs).  Results of arithmetic carry no size.              *)
 (***************************************************************************)
 Unary(op, x) ==
-    IF x.t = "int"
+    IF x.t = "wint" THEN BigV
+    ELSE IF x.t = "int"
     THEN IF op = "neg" THEN Guard(-x.v, -1) ELSE Guard(BitNot(x.v), -1)
     ELSE IF x.t = "bool" /\ op = "not" THEN BoolV(x.v = 0)
     ELSE ErrV
@@ -204,7 +220,7 @@ IntBin(op, L, R) ==
       [] op = "ge" -> BoolV(a >= b)
       [] op = "concat" ->
             IF L.s < 0 \/ R.s < 0 THEN ErrV
-            ELSE IF ~ConcatFits(L.s, R.s) THEN BigV
+            ELSE IF ~ConcatFits(L.s, R.s) THEN (IF L.s > 30 \/ R.s > 30 THEN BigV ELSE WIntV(ToBits(L) \o ToBits(R)))
             ELSE IntV(ConcatVal(a, L.s, b, R.s), L.s + R.s)
       [] OTHER -> ErrV
 
@@ -213,23 +229,32 @@ Binary(op, x, y) ==
     ELSE LET L == AsInt(x) R == AsInt(y) IN
          IF L.t = "big" \/ R.t = "big" THEN BigV
          ELSE IF L.t = "int" /\ R.t = "int" THEN IntBin(op, L, R)
+         ELSE IF L.t \in {"int", "wint"} /\ R.t \in {"int", "wint"}
+         THEN IF op # "concat" THEN BigV
+              ELSE IF L.s < 0 \/ R.s < 0 THEN ErrV
+              ELSE IF (L.t = "int" /\ L.s > 30) \/ (R.t = "int" /\ R.s > 30) THEN BigV
+              ELSE WIntV(ToBits(L) \o ToBits(R))
          ELSE ErrV
 
 \* x[l:r] with l, r already evaluated; x`n is x[n-1:0]
 SliceOp(x, l, r) ==
     LET X == AsInt(x) IN
     IF X.t = "big" THEN BigV
-    ELSE IF X.t # "int" THEN ErrV
+    ELSE IF X.t \notin {"int", "wint"} THEN ErrV
     ELSE IF l.t # "int" \/ r.t # "int" \/ l.v < 0 \/ r.v < 0 THEN ErrV
     ELSE IF l.v + 1 < r.v THEN ErrV
+    ELSE IF X.t = "wint"
+    THEN (IF l.v + 1 - r.v > 4096 THEN BigV ELSE FromBits([k \in 1..(l.v + 1 - r.v) |-> WBit(X, l.v - (k - 1))]))
     ELSE IF ~SliceFits(l.v + 1, r.v) THEN BigV
     ELSE IntV(SliceVal(X.v, l.v + 1, r.v), l.v + 1 - r.v)
 
 SliceShortOp(x, n) ==
     LET X == AsInt(x) IN
     IF X.t = "big" THEN BigV
-    ELSE IF X.t # "int" THEN ErrV
+    ELSE IF X.t \notin {"int", "wint"} THEN ErrV
     ELSE IF n.t # "int" \/ n.v < 0 THEN ErrV
+    ELSE IF X.t = "wint"
+    THEN (IF n.v > 4096 THEN BigV ELSE FromBits([k \in 1..n.v |-> WBit(X, n.v - k)]))
     ELSE IF ~SliceFits(n.v, 0) THEN BigV
     ELSE IntV(SliceVal(X.v, n.v, 0), n.v)
 
@@ -244,9 +269,10 @@ Builtin(f, args) ==
             IF Len(args) # 1 THEN ErrV
             ELSE LET X == AsInt(args[1]) IN
                  IF args[1].t = "str" THEN IntV(8 * Len(StrBytes(args[1].cps, args[1].enc)), -1)
-                 ELSE IF X.t = "int" /\ X.s >= 0 THEN IntV(X.s, -1) ELSE ErrV
+                 ELSE IF X.t \in {"int", "wint"} /\ X.s >= 0 THEN IntV(X.s, -1) ELSE ErrV
       [] f = "le" ->
-            IF Len(args) # 1 \/ args[1].t # "int" \/ args[1].s < 0 \/ args[1].s % 8 # 0 THEN ErrV
+            IF Len(args) # 1 \/ args[1].t \notin {"int", "wint"} \/ args[1].s < 0 \/ args[1].s % 8 # 0 THEN ErrV
+            ELSE IF args[1].t = "wint" THEN WIntV(RevBytes(args[1].cps))
             ELSE IF args[1].s > 24 THEN BigV
             ELSE IntV(LeVal(args[1].v % Pow2(args[1].s), args[1].s), args[1].s)
       [] f = "strlen" ->
@@ -329,7 +355,7 @@ Eval(e, env) ==
       [] e.k = "slice" ->
             LET x == Eval(e.e, env) IN
             IF Propagates(x.v) THEN x
-            ELSE IF AsInt(x.v).t \notin {"int", "big"} THEN R(ErrV, x.env)
+            ELSE IF AsInt(x.v).t \notin {"int", "wint", "big"} THEN R(ErrV, x.env)
             ELSE LET l == Eval(e.l, x.env) IN
                  IF Propagates(l.v) THEN l
                  ELSE LET r == Eval(e.r, l.env) IN
@@ -337,7 +363,7 @@ Eval(e, env) ==
       [] e.k = "sshort" ->
             LET x == Eval(e.e, env) IN
             IF Propagates(x.v) THEN x
-            ELSE IF AsInt(x.v).t \notin {"int", "big"} THEN R(ErrV, x.env)
+            ELSE IF AsInt(x.v).t \notin {"int", "wint", "big"} THEN R(ErrV, x.env)
             ELSE LET n == Eval(e.n, x.env) IN
                  IF Propagates(n.v) THEN n ELSE R(SliceShortOp(x.v, n.v), n.env)
       [] e.k = "block" -> EvalSeq(e.es, 1, env, VoidV)
@@ -388,6 +414,7 @@ EvalTop(e) ==
 (***************************************************************************)
 DataBits(x) ==
     IF x.t = "str" THEN [ok |-> TRUE, bits |-> BytesBits(StrBytes(x.cps, x.enc))]
+    ELSE IF x.t = "wint" THEN [ok |-> TRUE, bits |-> x.cps]
     ELSE IF x.t = "int" /\ x.s >= 0 THEN [ok |-> TRUE, bits |-> BitsOf(x.v, x.s)]
     ELSE [ok |-> FALSE, bits |-> <<>>]
 =============================================================================
